@@ -329,3 +329,118 @@ def c05_3(ctx):
         return case
     yield Case('yaql', mk('yaql'), needed=['evaluated'])
     yield Case('jinja', mk('jinja'), needed=['evaluated'])
+
+
+# ---------------------------------------------------------------------------
+# C05.G  generated shapes with a causal reference
+# ---------------------------------------------------------------------------
+_GN = 'abcde'
+
+
+def _gen_data_case(n):
+    """Every forward-route DAG over n tasks (route i -> j present or not, a
+    task with >= 2 inbound routes is 'join: all'), every subset of tasks
+    publishing the variable v, every listing order of the unordered upstream
+    SELECT.  Oracle (causal reference): the value of v a task sees is the
+    value of a MAXIMAL publisher among its causal ancestors - never a value
+    that a later task on the same path has re-published - and v is absent
+    iff no ancestor publishes it."""
+    def case():
+        from vt.world import World
+        from mistral_lib import actions as ml
+        edges = {}
+        for j in range(1, n):
+            for i in range(j):
+                edges[(i, j)] = fresh_bool('e%d%d' % (i, j))
+                edges[(i, j)] = bool(edges[(i, j)])
+        pub = [bool(fresh_bool('pub%d' % i)) for i in range(n)]
+        assume(any(pub))
+        lines = ["version: '2.0'", 'wf:', '  output:',
+                 '    v: <% $.get(v, none) %>', '  tasks:']
+        for i in range(n):
+            inbound = [k for k in range(i) if edges[(k, i)]]
+            lines.append('    %s:' % _GN[i])
+            lines.append('      action: std.noop')
+            if len(inbound) >= 2:
+                lines.append('      join: all')
+            if pub[i]:
+                lines.append('      publish:')
+                lines.append('        v: from_%s' % _GN[i])
+            tg = [_GN[j] for j in range(i + 1, n) if edges[(i, j)]]
+            if tg:
+                lines.append('      on-success: [%s]' % ', '.join(tg))
+        text = '\n'.join(lines) + '\n'
+        sig = 'C05.G:%d' % n
+        # causal ancestors (every route is taken: all actions succeed)
+        anc = {i: set() for i in range(n)}
+        for j in range(n):
+            for i in range(j):
+                if edges[(i, j)]:
+                    anc[j] |= {i} | anc[i]
+        w = World([text], sym_upstream_order=True)
+        with w:
+            wid = w.start('wf')
+            w.run(result_of=lambda ev: ml.Result(data='ok'))
+            reach('ran')
+            wf = w.wf_ex(wid)
+            info = {'text': text, 'signature': sig}
+            check(wf['state'] == 'SUCCESS', 'run-not-finished',
+                  dict(info, signature=sig + ':final', state=wf['state']))
+            for i in range(n):
+                t = w.task(_GN[i], wid)
+                if t is None:
+                    continue
+                P = [x for x in anc[i] if pub[x]]
+                M = [x for x in P
+                     if not any(x in anc[y] for y in P)]
+                got = (t['in_context'] or {}).get('v')
+                allowed = ['from_%s' % _GN[x] for x in M] or [None]
+                if len(M) >= 1 and len(P) > len(M):
+                    reach('republished-upstream')
+                if len(anc[i]) >= 2 and 'join' in (t['spec'] or {}):
+                    reach('join-seen')
+                check(got in allowed,
+                      'task-sees-stale-or-foreign-value',
+                      dict(info, signature=sig + ':stale', task=_GN[i],
+                           got=got, allowed=allowed))
+            # the workflow output: value of a maximal publisher overall
+            Pall = [x for x in range(n) if pub[x]]
+            Mall = [x for x in Pall if not any(x in anc[y] for y in Pall)]
+            check((wf['output'] or {}).get('v') in
+                  ['from_%s' % _GN[x] for x in Mall],
+                  'workflow-output-has-stale-value',
+                  dict(info, signature=sig + ':output',
+                       got=(wf['output'] or {}).get('v')))
+    return case
+
+
+@obligation(
+    'C05.G', engine='symx+world(minidb)',
+    functions=['mistral.workflow.data_flow:evaluate_upstream_context',
+               'mistral.workflow.data_flow:evaluate_task_outbound_context',
+               'mistral.workflow.data_flow:evaluate_workflow_output',
+               'mistral.workflow.context_versioning:merge_context_by_version',
+               'mistral.workflow.context_versioning:'
+               'get_in_context_with_versions',
+               'mistral.workflow.direct_workflow:DirectWorkflowController.'
+               'evaluate_workflow_final_context',
+               'mistral.engine.tasks:Task._update_inbound_context'],
+    bounds={'quick': 'EVERY forward-route DAG over 4 tasks (each route '
+                     'present or not, joins all), every subset of tasks '
+                     'publishing v, every listing order of the unordered '
+                     'upstream SELECT; all actions succeed; FIFO',
+            'thorough': 'same over 5 tasks'},
+    stubs=['minidb', 'QueueRPC', 'FakeScheduler', 'FakeExecutor',
+           'post-commit queue inline', 'real YAQL'],
+    outside='failing tasks, partial joins, nested values (C05.E), more than '
+            'one variable',
+    timeout=(500, 3000))
+def c05_g(ctx):
+    """in every generated shape every task sees, for the published
+    variable, the value of a maximal publisher among its causal ancestors
+    (absent iff none publishes), and so does the workflow output"""
+    boot()
+    n = ctx.pick(4, 5)
+    yield Case('%d-tasks' % n, _gen_data_case(n),
+               needed=['ran', 'republished-upstream', 'join-seen'],
+               max_paths=5000000, shard_depth=ctx.pick(6, 9), procs=14)
